@@ -6,7 +6,15 @@ EXTENDS Naturals, Sequences, FiniteSets, TLC, Json, IOUtils
 Traces == JsonDeserialize(IOEnv.VERIF_TRACES)
 VARIABLES tid, done
 F(b, name) == IF b THEN {} ELSE {name}
+\* a pair of objects (steps or plans from different plans / catalogs) compared both ways: equality must be symmetric and may
+\* hold only between objects that are structurally the same (so also: of the same class, printing alike)
+PairVerdict(x) ==
+  F(x.raises = 0, "EqualityOrHashRaises") \cup
+  (IF x.raises = 1 THEN {} ELSE F(x.eq = x.eq_rev, "EqualityNotSymmetric") \cup F(~(x.eq = 1 \/ x.eq_rev = 1) \/ x.same_projection = 1, "EqualButDifferent")
+                                \cup F(x.same_projection = 0 \/ (x.eq = 1 /\ x.eq_rev = 1), "SameButCompareUnequal")
+                                \cup F(x.trans = 1, "EqualityNotTransitive"))
 Verdict(x) ==
+  IF x.kind = "pair" THEN PairVerdict(x) ELSE
   IF x.kind = "tree"
   THEN F(x.raises = 0, "CopyRaises") \cup
        (IF x.raises = 1 THEN {} ELSE
